@@ -87,4 +87,17 @@ theorem C10_bytes (p : Policy) (hp : PlainC p.ensureInit) (input : Bytes) :
   obtain ⟨a, ha, h1, h2, h3⟩ := C10_sanitizeAttrs p.ensureInit k.data t.attrs aps k.attrs hs hsan b hb hkey
   exact ⟨t, ht, hd, a, ha, h1, h2, h3⟩
 
+/-- (per-input form)  **C10 (byte level, plain policies)** -/
+theorem C10_bytes_on (p : Policy) (input : Bytes) (hp : PlainOn p.ensureInit (tokenize input)) :
+    ∀ k ∈ tokenize (p.sanitizeCore input), (k.tt = .start ∨ k.tt = .selfClosing) →
+      p.ensureInit.hasStylePolicies k.data = true →
+      ∀ b ∈ k.attrs, b.key = b!"style" →
+        ∃ t ∈ tokenize input, t.data = k.data ∧ ∃ a ∈ t.attrs, a.key = b!"style" ∧
+          b.val = p.ensureInit.sanitizeStyles a.val k.data ∧ b.val ≠ [] := by
+  intro k hk htt hs b hb hkey
+  have hne : k.attrs ≠ [] := by intro h; rw [h] at hb; simp at hb
+  obtain ⟨t, ht, aps, hd, _, hsan⟩ := reread_open_tagOn p input hp k hk htt hne
+  obtain ⟨a, ha, h1, h2, h3⟩ := C10_sanitizeAttrs p.ensureInit k.data t.attrs aps k.attrs hs hsan b hb hkey
+  exact ⟨t, ht, hd, a, ha, h1, h2, h3⟩
+
 end BM.Props
